@@ -118,6 +118,8 @@ def run(prog: Program, res: Result) -> None:
                  "R5 algorithm code passes no direction to sort/selection helpers"]
     res.undecided = ["multi-objective maximisation (fails up front: C06 finding)"]
     closed_world(prog, res)
+    from .. import chain as _chain
+    _chain.check_solve_returns_objective(prog, res, P)      # a value substituted inside solve() is not mirrored by the sign flip
     resolver = Resolver(prog, None)
     helpers_with_dir = {f.qualname: f for f in prog.modules[f"{PKG}.helpers"].functions.values() if "task_type" in f.params and f.name != "calculate_fitness"}
     res.count("helpers-with-direction-parameter", len(helpers_with_dir))
